@@ -222,6 +222,58 @@ func scripted(c *kit.Ctx) []job {
 			add("partial-delete-recovers", 2, start([]int{0, 1}, 1), env("launch", 0, 0), env("init", 0, 0), r1, advance(at), recon(1), cleanup, deliver, cleanup)
 		}
 	}
+	// ---- candidates (only some of them, in every list position) vanish completely - Node and NodeClaim gone from
+	// the API, both deletions delivered to the cluster state - while a multi-candidate command waits; then each
+	// failure kind, the rollback, the controller pass, and a later command on the survivors
+	gone := func(id int) jOp { return jOp{Op: "gone", Node: id} }
+	for _, cands := range [][]int{{0, 1}, {0, 1, 2}, {0, 2, 3}} {
+		var subsets [][]int
+		for mask := 1; mask < (1<<len(cands))-1; mask++ {
+			var sub []int
+			for i, c := range cands {
+				if mask&(1<<i) != 0 {
+					sub = append(sub, c)
+				}
+			}
+			subsets = append(subsets, sub)
+		}
+		for _, sub := range subsets {
+			live := -1
+			var survivors []int
+			for _, c := range cands {
+				if !contains(sub, c) {
+					survivors = append(survivors, c)
+					if live < 0 {
+						live = c
+					}
+				}
+			}
+			var vanish []jOp
+			for _, c := range sub {
+				vanish = append(vanish, gone(c))
+			}
+			tail := []jOp{cleanup, deliver, cleanup, start(survivors, 0), recon(live), cleanup}
+			mk := func(kind string, mid ...jOp) {
+				ops := append([]jOp{start(cands, 1), env("launch", 0, 0)}, mid...)
+				add("candidate-vanishes-"+kind, 4, append(ops, tail...)...)
+			}
+			// replacement vanished
+			mk("then-replacement-vanishes", append(append([]jOp{}, vanish...), env("delapi", 0, 0), env("delstate", 0, 0), recon(live))...)
+			mk("after-latch-then-replacement-vanishes", append(append([]jOp{env("init", 0, 0)}, vanish...), env("delapi", 0, 0), env("delstate", 0, 0), recon(live))...)
+			// timeout while waiting
+			mk("then-timeout", append(append([]jOp{recon(live)}, vanish...), advance(600001), recon(live))...)
+			// a Delete that keeps failing, then the timeout
+			r1 := recon(live)
+			r1.FDel = []jFault{fl(survivors[len(survivors)-1], "write", "fail", 4)}
+			mk("then-delete-failure", append(append([]jOp{env("init", 0, 0)}, vanish...), r1, advance(600001), r1)...)
+			// and the success path: the Delete of a vanished candidate is NotFound and ignored
+			mk("then-success", append(append([]jOp{env("init", 0, 0)}, vanish...), recon(live))...)
+			// a restart instead of a failure
+			mk("then-restart", append(append([]jOp{}, vanish...), restart)...)
+			// delete-only command
+			add("candidate-vanishes-delete-only", 4, append(append(append([]jOp{start(cands, 0)}, vanish...), advance(600001), r1, r1), tail...)...)
+		}
+	}
 	// ---- S5 a restart between any two steps of the protocol
 	base := []jOp{start([]int{0, 1}, 2), env("launch", 0, 0), env("launch", 0, 1), env("init", 0, 1), recon(0), env("init", 0, 0), recon(1), deliver, cleanup}
 	for pos := 0; pos <= len(base); pos++ {
@@ -293,10 +345,32 @@ func randomOp(r *kit.Rand, w *world, faults *int) *jOp {
 	s := w.snapshot()
 	var free, all []int
 	for id, nd := range s.Nodes {
+		if nd.Gone {
+			continue
+		}
 		all = append(all, id)
 		if nd.Owner < 0 && !nd.Del && !nd.Mark {
 			free = append(free, id)
 		}
+	}
+	liveOf := func(cm cmdSnap) []int {
+		var out []int
+		for _, c := range cm.Cands {
+			if !s.Nodes[c].Gone {
+				out = append(out, c)
+			}
+		}
+		return out
+	}
+	var reconcilable []cmdSnap
+	for _, cm := range s.Cmds {
+		if len(liveOf(cm)) > 0 {
+			reconcilable = append(reconcilable, cm)
+		}
+	}
+	if len(all) == 0 {
+		o := advance(1000)
+		return &o
 	}
 	useFault := func() bool {
 		if *faults > 0 && r.Chance(1, 3) {
@@ -356,9 +430,17 @@ func randomOp(r *kit.Rand, w *world, faults *int) *jOp {
 		e := kit.Pick(r, evs)
 		o := env(e.op, e.k, e.j)
 		return &o
-	case len(s.Cmds) > 0 && roll < 82:
-		cm := kit.Pick(r, s.Cmds)
-		o := recon(kit.Pick(r, cm.Cands))
+	case len(s.Cmds) > 0 && len(all) > 1 && roll >= 55 && roll < 58:
+		// a candidate of an in-flight command (sometimes any node) vanishes completely
+		pool := kit.Pick(r, s.Cmds).Cands
+		if r.Chance(1, 4) {
+			pool = all
+		}
+		o := jOp{Op: "gone", Node: kit.Pick(r, pool)}
+		return &o
+	case len(reconcilable) > 0 && roll < 82:
+		cm := kit.Pick(r, reconcilable)
+		o := recon(kit.Pick(r, liveOf(cm)))
 		if useFault() {
 			switch r.Intn(4) {
 			case 0:
@@ -366,7 +448,7 @@ func randomOp(r *kit.Rand, w *world, faults *int) *jOp {
 					o.FGet = []jFault{fl(r.Intn(len(cm.Latched)), "get", kit.Pick(r, []string{"nf", "fail"}), 1)}
 				}
 			case 1:
-				f := randFault(r, kit.Pick(r, cm.Cands))
+				f := randFault(r, kit.Pick(r, liveOf(cm)))
 				f.Site = "write"
 				o.FDel = []jFault{f}
 			case 2:
